@@ -31,7 +31,10 @@ def board_with(pcs, turn):
     white = pcs[0] | pcs[1] | pcs[2] | pcs[3] | pcs[4] | pcs[5]
     black = pcs[6] | pcs[7] | pcs[8] | pcs[9] | pcs[10] | pcs[11]
     bbs = tuple(bb(x) for x in pcs) + (bb(white), bb(black), bb(white | black))
-    return (B.color_v(turn), z3.BitVec('fm', 16), B.opt_u8_v(False, None), Seq.of([B.PREFIX]), None, bbs, (z3.BitVec('zk', 64),))
+    # the last-move record is arbitrary but the same for the position, its mirror image and its side-swapped twin
+    # (only its half-move clock could matter to an evaluator; the property compares positions with equal clocks)
+    prev = B.SymBoard('ev', B.WHITE).prev_value()
+    return (B.color_v(turn), z3.BitVec('fm', 16), B.opt_u8_v(False, None), Seq.of([B.PREFIX, prev]), None, bbs, (z3.BitVec('zk', 64),))
 
 
 def run_eval(run, pcs, turn, pc):
@@ -50,14 +53,14 @@ def run_eval(run, pcs, turn, pc):
     return ex, val, st2
 
 
-def native_eval(run, pcs_vals, turn):
+def native_eval(run, pcs_vals, turn, hmc=0):
     white = 0
     for x in pcs_vals[:6]:
         white |= x
     black = 0
     for x in pcs_vals[6:]:
         black |= x
-    toks = [str(turn), '1', '-1', '1'] + ['0', '0', '0', '0', '0', '0', '-1', '-1', '0', '0', '0', '0', '1', '1', '1', '1'] + ['0']
+    toks = [str(turn), '1', '-1', '1'] + ['0', '0', '0', '0', '0', '0', '-1', '-1', '0', '0', '0', str(hmc), '1', '1', '1', '1'] + ['0']
     toks += [str(x) for x in pcs_vals] + [str(white), str(black), str(white | black), '0']
     stt, out = BS.native_board_cmd(run, 'eval', toks)
     return stt, out
@@ -69,7 +72,7 @@ def check(run, replay=None):
         c = json.load(open(replay))
         vals = {}
         for nm, (p, t) in c['cases'].items():
-            stt, out = native_eval(run, p, t)
+            stt, out = native_eval(run, p, t, c.get('hmc', 0))
             vals[nm] = (stt, out)
             print('replay', nm, stt, out)
         return 1
@@ -145,6 +148,8 @@ def report(run, q, pcs, turn, what, cases):
             v |= 1 << used
             used += 1
         vals.append(v)
+    hv = [d for d in m.decls() if d.name() == 'ev_prev_hmc']
+    hmc = m[hv[0]].as_long() if hv else 0
     def conc(sets, t):
         if sets is pcs:
             return vals, t
@@ -152,7 +157,7 @@ def report(run, q, pcs, turn, what, cases):
     res = {}
     for nm, sets, t in cases:
         p, tt = conc(sets, t)
-        res[nm] = (p, tt, native_eval(run, p, tt))
+        res[nm] = (p, tt, native_eval(run, p, tt, hmc))
     outs = [r[2] for r in res.values()]
     ok = all(o[0] == 'OK' for o in outs)
     bad = False
@@ -164,6 +169,6 @@ def report(run, q, pcs, turn, what, cases):
         bad = any(o[0] == 'PANIC' for o in outs)
     if bad or not ok:
         run.violation('evaluation symmetry (%s) fails: %s' % (what, {k: v[2] for k, v in res.items()}),
-                      {'what': what, 'cases': {k: (v[0], v[1]) for k, v in res.items()}})
+                      {'what': what, 'hmc': hmc, 'cases': {k: (v[0], v[1]) for k, v in res.items()}})
     else:
         run.inconclusive.append('C17 %s: model does not reproduce natively' % what)
